@@ -1,0 +1,9 @@
+//go:build verif
+
+package prompting
+
+// VerifDetermineResponseMode exposes determineResponseMode for verification
+// harnesses. It only exists when the verif build tag is set.
+func VerifDetermineResponseMode(prompt string) ResponseMode {
+	return determineResponseMode(prompt)
+}
